@@ -45,6 +45,21 @@ fn all_paths(max_len: usize, with_nul: bool) -> Vec<Vec<u8>> {
         cur = next;
     }
     out.extend(seeds());
+    // long paths: every separator-like token at every offset 0..=72 of an otherwise plain name (the
+    // line formats have fixed-width fields - 64 hex digits, "BLAKE3 (" - that an offset can resonate with)
+    let markers: [&[u8]; 11] = [b"  ", b" ", b" *", b") = ", b"\\", b"\n", b"\\n", b"\r", b"BLAKE3 (", "é".as_bytes(), b"   "];
+    for m in markers {
+        for filler in [b'a', b'0'] {
+            for off in 0..=72usize {
+                for tail in [0usize, 1, 7] {
+                    let mut q = vec![filler; off];
+                    q.extend_from_slice(m);
+                    q.extend(std::iter::repeat(b'b').take(tail));
+                    out.push(q);
+                }
+            }
+        }
+    }
     out.sort();
     out.dedup();
     out
